@@ -321,12 +321,17 @@ Qed.
 
 Lemma block_bounded : forall o b, boundedc 3 0 (block_ops o b).
 Proof.
-  intros o b. unfold block_ops. simpl boundedc.
-  repeat split; try lia.
+  intros o b. unfold block_ops.
+  set (hd := if is_nil (bname b) then [OWrite s_global] else [OWrite s_data; OWrite (bname b)]).
+  assert (Hh : boundedc 3 0 hd /\ endc 0 hd = 0).
+  { unfold hd; destruct (is_nil (bname b)); simpl; repeat split; lia. }
+  destruct Hh as [H1 H2]. clearbody hd.
+  rewrite boundedc_app. split; [exact H1|]. rewrite H2.
+  simpl boundedc. repeat split; try lia.
   rewrite !boundedc_app.
   destruct (misuse_hash o); simpl.
   - destruct (items_ok o (bitems b) None 0) as [I1 I2]; [lia|]. repeat split; try lia; assumption.
-  - destruct (items_ok o (bitems b) None 1) as [I1 I2]; [lia|]. repeat split; try lia; assumption.
+  - destruct (items_ok o (bitems b) None (0 + 1)) as [I1 I2]; [lia|]. repeat split; try lia; assumption.
 Qed.
 
 (* every prefix of the trace of every block keeps 0 <= ptr <= 4096 -- whatever the option values *)
